@@ -21,7 +21,9 @@ CONSTANTS MaxLines, Emit
 \*  ws        spaces / tabs only         code     a statement
 \*  icomment  " # text" (indented: a comment to perl, code to the cleaner
 \*            unless trimming makes it the first line)
-LineClasses == {"shebang", "hash", "comment", "blank", "ws", "code", "icomment"}
+\*  endmark   "__END__" / "__DATA__": perl stops reading the program there;
+\*            the cleaner knows nothing of it and passes it and what follows
+LineClasses == {"shebang", "hash", "comment", "blank", "ws", "code", "icomment", "endmark"}
 IsSpace(c) == c \in {"blank", "ws"}
 IsCommentish(c) == c \in {"shebang", "hash", "comment"}
 
@@ -50,13 +52,18 @@ Clean(s) ==
   [ empty    |-> n = 0,
     program  |-> [k \in 1..n |-> IF k <= ll THEN [line |-> Kept(s)[k], as |-> "blanked"]
                                            ELSE [line |-> Kept(s)[k], as |-> "kept"]],
-    lead     |-> [k \in 1..(ll - sk) |-> Kept(s)[sk + k]] ]
+    lead     |-> [k \in 1..(ll - sk) |-> Kept(s)[sk + k]],
+    \* the statements perl runs: code lines in front of the first end marker
+    runs     |-> {Kept(s)[k] : k \in {j \in 1..n : /\ ClassAfterTrim(s, j) = "code"
+                                                    /\ \A i \in 1..j : ClassAfterTrim(s, i) # "endmark"}} ]
 
 (* laws *)
 LinesPreserved(s) == Len(Clean(s).program) = Len(Kept(s))
 OnlyTopCommentsBlanked(s) ==
   \A k \in 1..Len(Clean(s).program) :
      Clean(s).program[k].as = "blanked" <=> (\A j \in 1..k : IsCommentish(ClassAfterTrim(s, j)))
+NothingCutAtEndMark(s) == \A k \in 1..Len(Clean(s).program) :
+     ClassAfterTrim(s, k) = "endmark" => \A j \in k..Len(Clean(s).program) : Clean(s).program[j].as = "kept"
 LeadAreBlanked(s) == \A k \in 1..Len(Clean(s).lead) :
      \E j \in 1..Len(Clean(s).program) : Clean(s).program[j].line = Clean(s).lead[k] /\ Clean(s).program[j].as = "blanked"
 
@@ -79,7 +86,8 @@ Init == script \in UNION {[1..n -> LineClasses] : n \in 0..MaxLines}
 Next == UNCHANGED script
 Spec == Init /\ [][Next]_script
 
-CleanLaws == LinesPreserved(script) /\ OnlyTopCommentsBlanked(script) /\ LeadAreBlanked(script)
+CleanLaws == /\ LinesPreserved(script) /\ OnlyTopCommentsBlanked(script) /\ LeadAreBlanked(script)
+             /\ NothingCutAtEndMark(script)
 PipelineLaws == PipelineIdentity /\ SubstitutesOutsideAlphabet /\ NoQuoteLeft /\ BracesBalanced /\ NothingElseMapsBack
 
 EmitCase == \/ ~Emit
